@@ -255,6 +255,120 @@ def table_exists_rule(ctx: Ctx):
         raise AnchorMissing(f"available(): {n} uses of the slot table found")
 
 
+def numeric_attribute_rule(ctx: Ctx):
+    """R11.11: what the slot walk compares with numbers is a number.  The attributes TaskScenario reads as `get(id, sc) or 0` and
+    compares numerically are collected; transformer callbacks that hand such an attribute on as the raw token (`("duration",
+    items[0])`) give the set of text-valued ids; a write of the model builder whose attribute id is a variable
+    (`obj[(attr_key, idx)] = value`) must be reached only under the fact that the id is none of them."""
+    repo = ctx.repo
+    numeric = set()
+    for q in ("TaskScenario.scheduleSlot", "TaskScenario.schedule"):
+        f = repo.func(q)
+        for a in own_nodes(f):
+            if isinstance(a, ast.Assign) and isinstance(a.value, ast.BoolOp) and isinstance(a.value.op, ast.Or) and len(a.value.values) == 2 \
+                    and isinstance(a.value.values[1], ast.Constant) and a.value.values[1].value == 0:
+                c = a.value.values[0]
+                if isinstance(c, ast.Call) and isinstance(c.func, ast.Attribute) and c.func.attr == "get" and c.args and isinstance(c.args[0], ast.Constant):
+                    numeric.add(c.args[0].value)
+    if len(numeric) < 2:
+        raise AnchorMissing(f"scheduleSlot: numeric attributes found {sorted(numeric)}")
+    tr = repo.cls("TJPTransformer")
+    raw = set()
+    for nm, f in tr.methods.items():
+        for r in own_nodes(f):
+            if isinstance(r, ast.Return) and isinstance(r.value, ast.Tuple) and len(r.value.elts) == 2 and isinstance(r.value.elts[0], ast.Constant) \
+                    and r.value.elts[0].value in numeric and isinstance(r.value.elts[1], ast.Subscript) and norm(r.value.elts[1].value) == (f.params[1] if len(f.params) > 1 else "items"):
+                raw.add(r.value.elts[0].value)
+    ap = repo.func("ModelBuilder._apply_property_attributes")
+    g = cfg_of(ap)
+    facts = facts_of(ap)
+    n = 0
+    for node in g.nodes:
+        a = node.ast
+        if not (node.kind == "stmt" and isinstance(a, ast.Assign) and isinstance(a.targets[0], ast.Subscript) and isinstance(a.targets[0].slice, ast.Tuple)
+                and a.targets[0].slice.elts and isinstance(a.targets[0].slice.elts[0], ast.Name)):
+            continue
+        k = a.targets[0].slice.elts[0].id
+        n += 1
+        excluded = set()
+        for cl in facts.at(node):
+            if len(cl) == 1:
+                (t, p), = tuple(cl)
+                try:
+                    e = ast.parse(t, mode="eval").body
+                except SyntaxError:
+                    continue
+                if isinstance(e, ast.Compare) and len(e.ops) == 1 and norm(e.left) == k and isinstance(e.comparators[0], (ast.Tuple, ast.List, ast.Set)):
+                    consts = {x.value for x in e.comparators[0].elts if isinstance(x, ast.Constant)}
+                    if (isinstance(e.ops[0], ast.In) and p is False) or (isinstance(e.ops[0], ast.NotIn) and p is True):
+                        excluded |= consts
+        ok = raw <= excluded
+        ctx.ob("R11.11", f"{ap.qual}: {norm(a)[:60]} (attribute id in a variable)", (ap, a), ok,
+               f"text-valued attributes {sorted(raw)} are excluded before the write" if ok else
+               f"the attribute id is a variable and {sorted(raw - excluded)} reach this write with the text the user wrote ('3d'): the slot walk then "
+               "compares a string with a number (TypeError inside Project.schedule)",
+               key=key_of("R11.11", ap, None, f"dynamic attribute write {n}"))
+    if not n:
+        raise AnchorMissing("_apply_property_attributes: no write with a variable attribute id found")
+
+
+def allocation_forms_rule(ctx: Ctx):
+    """R11.12: the parser hands an allocation with options on as a dict ({'resources': [...], 'options': {...}}) and one without as
+    a list of ids; a second `allocate` statement appends to the first, so the stored list can hold both kinds of element.  Where
+    bookResources walks that list and resolves each element as a resource id, dict elements are told apart first -- otherwise the
+    dict itself is booked as if it were a resource (AttributeError inside Project.schedule)."""
+    brs = ctx.repo.func("TaskScenario.bookResources")
+    sites = []
+    for lp in own_nodes(brs):
+        if isinstance(lp, ast.For) and isinstance(lp.target, ast.Name):
+            calls = [c for c in ast.walk(lp) if isinstance(c, ast.Call) and norm(c.func) == "self._resolve_resource" and c.args
+                     and isinstance(c.args[0], ast.Name) and c.args[0].id == lp.target.id]
+            if calls and "alloc" in norm(lp.iter):
+                sites.append((lp, calls))
+    if not sites:
+        raise AnchorMissing("bookResources: loop resolving the elements of the allocation list not found")
+    for lp, calls in sites:
+        handles = any(isinstance(c, ast.Call) and norm(c.func) == "isinstance" and len(c.args) == 2 and norm(c.args[0]) == lp.target.id
+                      and "dict" in norm(c.args[1]) for c in ast.walk(lp))
+        # ... or the list was flattened before the loop
+        ctx.ob("R11.12", f"{brs.qual}: for {lp.target.id} in {norm(lp.iter)[:30]} resolves every element as a resource id", (brs, lp), handles,
+               "dict elements (allocations with options) are told apart" if handles else
+               "an element that is a dict (`allocate a { alternative c }` followed by a second `allocate b`) is resolved as if it were a resource "
+               "id and booked: AttributeError: 'dict' object has no attribute 'data' escapes from Project.schedule",
+               key="R11.12|TaskScenario.bookResources|mixed allocation list")
+
+
+def horizon_overflow_rule(ctx: Ctx):
+    """R11.13: the horizon estimate adds a timedelta scaled by the total effort of the project to a date; beyond year 9999 that
+    raises OverflowError.  In Project._extendProjectEndIfNeeded every `date + timedelta(<computed>)` sits in a try whose handler
+    catches OverflowError (the work is then reported as not schedulable instead of the scheduler dying)."""
+    fn = ctx.repo.func("Project._extendProjectEndIfNeeded")
+    n = 0
+    for x in own_nodes(fn):
+        if not (isinstance(x, ast.BinOp) and isinstance(x.op, ast.Add)):
+            continue
+        td = [o for o in (x.left, x.right) if isinstance(o, ast.Call) and norm(o.func).split(".")[-1] == "timedelta"]
+        if not td or all(isinstance(k.value, ast.Constant) for o in td for k in o.keywords) and all(isinstance(a, ast.Constant) for o in td for a in o.args):
+            continue
+        n += 1
+        guarded = False
+        p_ = getattr(x, "_parent", None)
+        while p_ is not None and p_ is not fn.node:
+            if isinstance(p_, ast.Try) and any(x is y for st in p_.body for y in ast.walk(st)):
+                for h in p_.handlers:
+                    names = [norm(h.type)] if h.type is not None and not isinstance(h.type, ast.Tuple) else [norm(e) for e in getattr(h.type, "elts", [])]
+                    if h.type is None or any(nm in ("OverflowError", "ArithmeticError", "Exception") for nm in names):
+                        guarded = True
+            p_ = getattr(p_, "_parent", None)
+        ctx.ob("R11.13", f"{fn.qual}: {norm(x)[:60]}", (fn, x), guarded,
+               "an estimate beyond the calendar is caught" if guarded else
+               "the estimated horizon is added to the project start unguarded: for an effort of millions of days the date leaves the calendar "
+               "and OverflowError escapes from Project.schedule",
+               key=key_of("R11.13", fn, x, "horizon overflow"))
+    if not n:
+        raise AnchorMissing("_extendProjectEndIfNeeded: date + timedelta(estimate) not found")
+
+
 TREE_WORDS = ("children", "kids", "parent", "parents", "adoptees", "stepParents", "ancestors")
 
 
@@ -269,6 +383,9 @@ def run(ctx: Ctx):
     divisor_rule(ctx, reach)
     ordered_dates_rule(ctx)
     table_exists_rule(ctx)
+    numeric_attribute_rule(ctx)
+    allocation_forms_rule(ctx)
+    horizon_overflow_rule(ctx)
     # ---------------------------------------------------------------- R11.1
     n_while = 0
     undecided = []
